@@ -36,6 +36,7 @@ type c12Case struct {
 	WorldSeed int64      `json:"world_seed,omitempty"`
 	OpSeed    int64      `json:"op_seed,omitempty"`
 	Op        *gen.GenOp `json:"operation,omitempty"`
+	Hand      bool       `json:"hand_world,omitempty"` // the hand-written federation instead of a generated world
 }
 
 // posQueryer answers each request with its position in the batch and counts calls
@@ -255,6 +256,14 @@ func driveC12(seed int64, tier, out, replay string) {
 				cases = append(cases, c12Case{WorldSeed: ws, OpSeed: rng.Int63()})
 			}
 		}
+		// the same entities reached from several places of one level (sibling fields, twin roots): one lookup each
+		for _, q := range append(append([]string{}, handShapes...),
+			`{ humans { phone } me { phone } }`,
+			`{ me { friend { phone } } humans { phone friend { phone } } }`,
+			`{ pets { owner { phone } } humans { phone } x: me { phone } }`) {
+			op := gen.GenOp{Query: q, Kind: "query", Features: []string{"hand_shape"}}
+			cases = append(cases, c12Case{Hand: true, WorldSeed: -1, Op: &op})
+		}
 	}
 	var coq []string
 	distinct := map[string]bool{}
@@ -283,6 +292,9 @@ func driveC12(seed int64, tier, out, replay string) {
 			opt.ListMax = 120
 			opt.EntitiesMax = 60
 			w := gen.NewWorld(hx.NewRand(c.WorldSeed), opt)
+			if c.Hand {
+				w = handWorld()
+			}
 			var err error
 			r, err = NewRig(w, RigConfig{})
 			if err != nil {
